@@ -329,7 +329,7 @@ func smfAddCells(c *Ctx, rule string) {
 			}
 			got, _ := els[0].(*SliceV)
 			if got == nil || got.Obj != tr.Obj || !o.St.sameInt(got.Off, tr.Off) || !o.St.sameInt(got.Len, tr.Len) {
-				ok, why = false, "the stored track is not the slice that was handed in (" + valString(els[0]) + " instead of " + valString(tr) + "): events are lost or copied"
+				ok, why = false, "the stored track is not the slice that was handed in ("+valString(els[0])+" instead of "+valString(tr)+"): events are lost or copied"
 			}
 		}
 		c.Check(ok, rule, key, p.Pos(add.Pos()), "track of symbolic length: stored as the same slice, same length", why)
